@@ -24,10 +24,18 @@ LEVEL_TEXT = ("Proof of the assembly logic of the five text readers on parsed to
               "encoded instant in UTC at the format's resolution (CSEP: floor to ms; JMA: nearest ms after subtracting the "
               "UTC offset; ZMAP, HORUS, NDK: whole seconds); seconds written as 60 equal the next minute's :00 across "
               "hour/day/month/year ends (calendar lemma proved for all dates); every accepted type string has a reader. "
-              "The theorem carries the least here and the correspondence the most: tokenisation is trusted, and the tie to "
-              "the code is the file-level differential test against csep.load_catalog on generated files of every format.")
-LEVEL_NOTE = ("csv / numpy.loadtxt / numpy.genfromtxt / fixed-column slicing / float() / strptime field matching are not "
-              "modelled; NDK magnitude (2/3*(log10(M0)-9.1)) is transcendental and compared numerically (1e-9); JMA: the float path "
+              "Since wave 4 the step from the CHARACTERS of a file to those tokens is a Lean model too (Model/ReaderText: "
+              "universal newlines, csv/whitespace splitting, NDK fixed columns, decimal numerals -> binary64, strptime "
+              "matching, the skip rules of ndk._read_lines) with theorems for files of any length (line splitting LF/CRLF/"
+              "no final newline, groups of five, column layout of the hypocenter line, zero-padded fields, and the NDK "
+              "text model refining the token model), and every generated file is compared with it byte-for-byte-in, "
+              "event-for-event-out. The theorem still carries less here than the correspondence: the tie to the code is the "
+              "file-level differential test against csep.load_catalog on generated files of every format.")
+LEVEL_NOTE = ("the text model is hand-written and tied by correspondence (c19_text on every file; c19_float validates "
+              "float(text) = fl64(exact decimal value) on thousands of numerals per run); not modelled: csv quoting, '#' "
+              "comments, the 'data used' regex of NDK line 2, case-insensitive strptime literals, %z with seconds; NDK "
+              "magnitude (2/3*(log10(M0)-9.1)) is transcendental: the model yields the scalar moment, log10 is applied in "
+              "Python (1e-9); JMA: the float path "
               "round(1000.*ts) is transcribed in Soft64 and proved to return the written millisecond for ms-resolution times "
               "with |t| < 2^43 ms; for microsecond-resolution times the theorems use exact nearest-ms rounding and the harness "
               "checks on every record that the float path differs from it only on exact half-ms ties (either neighbour allowed).")
@@ -40,10 +48,17 @@ THEOREMS = ["Readers.decode_encode_csep", "Readers.decode_encode_zmap", "Readers
             "Readers.daysFromCivil_nextDay", "Readers.nextMinute_spec", "Readers.decode_horus_carries",
             "Readers.decode_encode_horus_denorm", "Readers.decode_encode_ndk_sec60", "Readers.daysFromCivil_strictMono",
             "Readers.civil_roundtrip", "Readers.jma_float_path_exact", "Readers.decode_encode_jma_float",
-            "Readers.decode_zmap_repeated", "Readers.decode_zmap_keeps_duplicates", "Readers.decode_csep_repeated"]
+            "Readers.decode_zmap_repeated", "Readers.decode_zmap_keeps_duplicates", "Readers.decode_csep_repeated",
+            # text level (Properties/C19_Text.lean): characters of the file -> tokens
+            "ReaderText.text_lines_lf", "ReaderText.text_lines_crlf", "ReaderText.text_lines_no_final_newline",
+            "ReaderText.ndk_groups_of_five", "ReaderText.ndk_line1_columns", "ReaderText.ndk_line1_layout",
+            "ReaderText.digits_value", "ReaderText.directive_on_padded_field", "ReaderText.csep_time_text",
+            "ReaderText.ndk_file_refines_tokens", "ReaderText.ndk_file_one_event_per_record"]
 TRUSTED = ["Lean 4.33 kernel", "axioms: propext, Classical.choice, Quot.sound at most",
-           "tokenisation: csv.reader, numpy.loadtxt, numpy.genfromtxt (incl. '2017.0000000000' -> int32), NDK fixed-column "
-           "slices, float(), int(), datetime.strptime field matching (%f right-padded to microseconds, %z offsets)",
+           "tokenisation (csv.reader, numpy.loadtxt, numpy.genfromtxt incl. '2017.0000000000' -> int32, NDK fixed-column "
+           "slices, float(), int(), datetime.strptime field matching) is MODELLED in Model/ReaderText.lean since wave 4 and "
+           "compared with the code on the bytes of every generated file; trusted remains that this hand-written text model "
+           "is what those library routines do outside the generated input classes (quoting, comments, locale, Unicode digits)",
            "Python datetime/timedelta calendar arithmetic = proleptic Gregorian day count (validated against the Lean "
            "daysFromCivil on every generated date and on a sweep of days 1900-2200)",
            "float subtraction `second - 60.` exact; `round(1000. * timestamp())` equals exact nearest-ms away from ties (checked "
@@ -63,7 +78,9 @@ RULE = ("per format, files of 1..60 records from random event lists: lon [-180,1
         "loaded with the process's local time zone cycling through UTC, Asia/Tokyo, America/Los_Angeles, Europe/London "
         "and POSIX TZ strings (TZ + time.tzset, restored afterwards). A case is non-trivial when the file holds a "
         "boundary record (leap day, roll-over, second 60, non-zero offset, sub-resolution fraction) or a repeated record; "
-        "distinct by sha1 of the file text and the zone")
+        "distinct by sha1 of the file text and the zone. Wave 4: every 7th random file has CRLF line ends; NDK lines 2-5 "
+        "vary (event-name length, order of the B/S/M data types, CMT: 0/1/2, TRIHD/BOXHD, FREE/FIX/BDY, Q-/S-/O- stamps, "
+        "exponents 7..35, three scalar-moment layouts); every file also goes as bytes through the text-level model")
 
 EPOCH = datetime.datetime(1970, 1, 1)
 FORMATS = ("csep-csv", "zmap", "jma-csv", "ingv_horus", "ndk")
@@ -350,6 +367,34 @@ _NDK_T = ["C200501010120A   B:  4    4  40 S: 27   33  50 M:  0    0   0 CMT: 1 
           "V10   1.581 56  12  -0.537 23 140  -1.044 24 241 ", "   9 29  142 133 72   66"]
 
 
+def _ndk_lines25(rng, expo, sm_t):
+    """lines 2-5 of a well-formed record: the template of a real record, or (60 %) generated variants of every field
+    `_read_lines` looks at: 8- or 14-character event name, the three data types in any order, source type CMT: 0/1/2,
+    TRIHD/BOXHD, depth type FREE/FIX/BDY, time stamp Q-/S-/O-, version code, all numbers varied (fixed columns kept)"""
+    if rng.random() < 0.4:
+        return [_NDK_T[0], _NDK_T[1], f"{expo:2d}" + _NDK_T[2], _NDK_T[3] + sm_t + _NDK_T[4]]
+    name = rng.choice(["C200501010120A", "B010185A", "M010176A", "C201703021245A", "S199912312359Z"])
+    kinds = ["B", "S", "M"]
+    rng.shuffle(kinds)
+    used = " ".join(f"{k}:{rng.randrange(200):3d}{rng.randrange(400):5d}{rng.choice([40, 45, 50, 125, 135]):4d}" for k in kinds)
+    src = rng.choice(["CMT: 0", "CMT: 1", "CMT: 2", "CMT:1 ", "cmt: 1"])
+    mr = f"{rng.choice(['TRIHD', 'BOXHD', 'TRIHD', 'trihd'])}:{rng.uniform(0.3, 60.0):5.1f}"
+    line2 = f"{name:<16} {used:<44} {src:<6} {mr}"
+    assert line2[62:68] == src and line2[69:] == mr and line2[17:61] == f"{used:<44}"
+    ty = rng.choice(["FREE", "FIX ", "BDY ", "free"])
+    stamp = rng.choice(["S-", "Q-", "O-", "s-"]) + f"{rng.randrange(19760101000000, 20251231235959):014d}"
+    line3 = ("CENTROID: " + f"{rng.uniform(-9, 99):8.1f}{rng.uniform(0, 9):4.1f}{rng.uniform(-90, 90):7.2f}{rng.uniform(0, 9):5.2f}"
+             f"{rng.uniform(-180, 180):8.2f}{rng.uniform(0, 9):5.2f}{rng.uniform(0, 700):6.1f}{rng.uniform(0, 99):5.1f}"
+             + " " + ty + " " + stamp)
+    assert line3[59:63] == ty and line3[64:] == stamp and len(line3[10:58]) == 48
+    line4 = f"{expo:2d}" + "".join(f" {rng.uniform(-9.999, 9.999):6.3f}" for _ in range(12))
+    axes = "".join(f"{rng.uniform(-9.9, 9.9):8.3f}{rng.randrange(90):3d}{rng.randrange(360):4d}" for _ in range(3))
+    planes = f"{rng.randrange(360):3d}{rng.randrange(90):3d}{rng.randrange(-180, 181):5d}{rng.randrange(360):4d}{rng.randrange(90):3d}{rng.randrange(-180, 181):5d}"
+    line5 = rng.choice(["V10", "S10", "V09"]) + axes + " " + sm_t + " " + planes
+    assert line5[49:56] == sm_t and len(axes) == 45
+    return [line2, line3, line4, line5]
+
+
 def gen_ndk(rng, n):
     recs = []
     for k in range(n):
@@ -366,13 +411,13 @@ def gen_ndk(rng, n):
         tm = f"{wdt.hour:02d}:{wdt.minute:02d}:{60 if sec60 else wdt.second:02d}.{tenth}"
         lat, lon, dep = _coord(rng, -90, 90, 2), _coord(rng, -180, 180, 2), _coord(rng, 0, 700, 1)
         lat_t, lon_t, dep_t = f"{lat:6.2f}", f"{lon:7.2f}", f"{dep:5.1f}"
-        expo = rng.randint(20, 30)
-        sm_t = f"{rng.uniform(1.0, 9.999):7.3f}"
+        expo = rng.choice([rng.randint(20, 30), rng.randint(7, 35)])
+        sm_t = rng.choice([f"{rng.uniform(1.0, 9.999):7.3f}", f"{rng.uniform(0.001, 99.999):7.3f}", f"{rng.uniform(1, 999):7.2f}"])
         line1 = f"{rng.choice(['PDE ', 'ISC ', 'SWE ', 'MLI '])} {date} {tm} {lat_t} {lon_t} {dep_t} {rng.uniform(0, 9):3.1f} {rng.uniform(0, 9):3.1f} " \
                 f"{rng.choice(['EL SALVADOR', 'OFF COAST OF CHILE', 'KURIL ISLANDS']):<24}"
-        lines = [line1, _NDK_T[0], _NDK_T[1], f"{expo:2d}" + _NDK_T[2], _NDK_T[3] + sm_t + _NDK_T[4]]
+        lines = [line1] + _ndk_lines25(rng, expo, sm_t)
         assert lines[4][49:56] == sm_t and line1[16:26] == tm and line1[27:33] == lat_t and line1[34:41] == lon_t \
-            and line1[42:47] == dep_t
+            and line1[42:47] == dep_t and lines[3][:2] == f"{expo:2d}"
         mw = 2.0 / 3.0 * (math.log10(float(sm_t) * (10 ** (expo - 7))) - 9.1)
         whole = dt.replace(microsecond=0)
         recs.append(dict(text=lines,
@@ -460,8 +505,12 @@ def check_case(ctx, spec, tag):
     # every fourth file (chosen by the content hash, so a replay makes the same choice) lacks the final newline:
     # the records are still well-formed and the last one must be read
     strip_nl = int(sha[:2], 16) % 4 == 0 and text.endswith("\n")
+    written = text[:-1] if strip_nl else text
+    if spec.get("eol") == "crlf":      # a file written on Windows: every reader opens in text mode / universal newlines
+        written = written.replace("\n", "\r\n")
+        run.count("file-with-crlf-line-ends")
     with open(path, "w", newline="") as f:
-        f.write(text[:-1] if strip_nl else text)
+        f.write(written)
     if strip_nl:
         run.count("file-without-final-newline")
     zone = spec.get("tz")
@@ -497,20 +546,53 @@ def check_case(ctx, spec, tag):
                 run.oracle_failure(case, f"{fmt}: record {k} ({recs[k]['text'] if fmt != 'ndk' else recs[k]['text'][0]}) loaded as "
                                          f"{_show(g)} expected {_show(w)}")
                 break
+    # text-level model (Model/ReaderText.lean): the characters of the file as written, through line splitting, field
+    # splitting / fixed columns, decimal numerals -> float64, strptime matching, then the token model
+    t = ctx.drv.ask(f"c19_text {fmt} {written.encode('latin-1').hex()}")
     if fmt == "jma-csv":
         j = ctx.drv.ask(req)                                  # exact model (what the theorems are about)
         i = ctx.drv.ask(req.replace("c19_jma ", "c19_jmaf ", 1))  # float path, compared bit for bit
-        ctx.pending.append((case, i, got, j, [bool(r.get("tie")) for r in recs]))
+        ctx.pending.append((case, i, got, j, [bool(r.get("tie")) for r in recs], t))
     else:
         i = ctx.drv.ask(req)
-        ctx.pending.append((case, i, got, None, None))
+        ctx.pending.append((case, i, got, None, None, t))
+
+
+def _parse_events(m):
+    return [[int(p.split("~")[0])] + [Fraction(x) for x in p.split("~")[1:]] for p in m[3:].split(";")] if m != "ok:" else []
+
+
+def _compare_text_model(ctx, case, got, m, ties):
+    """implementation vs the text-level model on the bytes of the file"""
+    fmt = case["fmt"]
+    if m == "outside":
+        ctx.run.count("text-model: file outside its domain")
+        return
+    ctx.run.count("text-model compared")
+    if m.startswith("ok:"):
+        evs = _parse_events(m)
+        same = (not isinstance(got, str)) and len(got) == len(evs)
+        if same:
+            for k, (g, e) in enumerate(zip(got, evs)):
+                if fmt == "ndk":      # the model returns the scalar moment; Mw = 2/3 (log10 M0 - 9.1) is applied here
+                    e = e[:4] + [Fraction(2.0 / 3.0 * (math.log10(float(e[4])) - 9.1))]
+                if ties and ties[k] and abs(g[0] - e[0]) == 1:
+                    e = [g[0]] + e[1:]
+                if not _same(fmt, g, e):
+                    same = False
+                    break
+    else:
+        same = isinstance(got, str)
+    if not same:
+        ctx.run.mismatch(dict(case, op="c19_text"), got if isinstance(got, str) else [_show(g) for g in got[:5]], m[:600])
 
 
 def flush(ctx):
     out = ctx.drv.run()
-    for case, i, got, j, ties in ctx.pending:
+    for case, i, got, j, ties, t in ctx.pending:
         m = out[i]
         fmt = case["fmt"]
+        _compare_text_model(ctx, case, got, out[t], ties)
         if j is not None and out[j] != m:
             # the exact-rounding model and the float path may differ only on exact half-millisecond ties
             a = [p.split("~")[0] for p in out[j][3:].split(";")]
@@ -520,7 +602,7 @@ def flush(ctx):
             if off_tie or len(a) != len(b):
                 raise RuntimeError(f"JMA float path differs from exact nearest-ms away from a tie: record {off_tie[:3]} of {case['sha1']}")
         if m.startswith("ok:"):
-            evs = [[int(p.split("~")[0])] + [Fraction(x) for x in p.split("~")[1:]] for p in m[3:].split(";")] if m != "ok:" else []
+            evs = _parse_events(m)
             same = (not isinstance(got, str)) and len(got) == len(evs)
             if same:
                 for k, (g, e) in enumerate(zip(got, evs)):
@@ -633,6 +715,105 @@ def check_calendar(run, rng, ndays):
         raise RuntimeError(f"Lean daysFromCivil/validDate disagree with Python's datetime on {len(bad)} dates: {bad[:3]}")
 
 
+def check_float_text(run, rng, n):
+    """trusted-base validation of the text model's numeral reader: Python's float(text) vs `ReaderText.pyFloat`
+    (= Soft64.fl64 of the exact decimal value) on random numerals in every spelling; raises on disagreement"""
+    drv, exp = Driver(), []
+    for k in range(n):
+        c = rng.random()
+        if c < 0.3:
+            t = _spell(rng, _coord(rng, -180, 180), 0.3)
+        elif c < 0.5:       # 17+ significant digits, near-halfway cases included
+            x = rng.uniform(-1000, 1000)
+            t = "%.*f" % (rng.randint(10, 25), x)
+        elif c < 0.7:
+            t = "%d.%0*d" % (rng.randrange(1000), rng.randint(1, 12), rng.randrange(10 ** 6))
+        elif c < 0.85:
+            t = rng.choice(["%s%de%+d", "%s.%dE%d", "%s%d.e%d"]) % (rng.choice(["", "-", "+"]), rng.randrange(10 ** rng.randint(1, 18)), rng.randint(-30, 30))
+        else:
+            t = rng.choice([" 5.0 ", "\t-0.0", "1e22", "1e23", "9007199254740993", "0.1", "123456789012345678", "4.35", "2.675", ".5e1",
+                            "5.", "+.5", "1e-7", "00012.50", "1_0", "", ".", "e5", "1e", "--1", "1.2.3", "0x10", "1 2"])
+        try:
+            want = frac(float(t))
+        except ValueError:
+            want = "ValueError"
+        if t.strip().lower().lstrip("+-") in ("inf", "nan", "infinity") or "_" in t:
+            continue        # outside the model's numeral grammar
+        drv.ask("c19_float " + t.encode("latin-1").hex() if t else "c19_float 20")
+        exp.append((t, want))
+    out = drv.run()
+    bad = [(t, w, o) for (t, w), o in zip(exp, out) if w != o]
+    run.extra["float_numerals_validated"] = len(exp)
+    if bad:
+        raise RuntimeError(f"ReaderText.pyFloat disagrees with Python float() on {len(bad)} numerals: {bad[:3]}")
+
+
+_NDK_BREAK = ["source-type", "moment-rate", "centroid-word", "depth-type", "stamp", "eleven-tensor-values", "latitude-text",
+              "one-magnitude", "zero-moment", "time-second-65", "time-60.5"]
+
+
+def check_ndk_malformed(run, rng, n):
+    """NOT part of the property (the records are not well-formed): how `ndk` treats records it cannot parse - it warns
+    and skips them, except an unparsable time, which raises - compared with `ReaderText.ndkGroup`.  Informational: a
+    disagreement is recorded in the evidence, never reported as a violation."""
+    import csep
+    drv, todo = Driver(), []
+    d = tempfile.mkdtemp(prefix="verif_c19m_")
+    try:
+        for k in range(n):
+            spec = gen_ndk(rng, rng.randint(1, 4))
+            recs = spec["recs"]
+            j = rng.randrange(len(recs))
+            how = rng.choice(_NDK_BREAK)
+            L = list(recs[j]["text"])
+            if how == "source-type":
+                L[1] = L[1][:62] + "CMT: 3" + L[1][68:]
+            elif how == "moment-rate":
+                L[1] = L[1][:69] + "GAUSS:" + L[1][75:]
+            elif how == "centroid-word":
+                L[2] = "CENTROIX:" + L[2][9:]
+            elif how == "depth-type":
+                L[2] = L[2][:59] + "AUTO" + L[2][63:]
+            elif how == "stamp":
+                L[2] = L[2][:64] + "X-" + L[2][66:]
+            elif how == "eleven-tensor-values":
+                L[3] = L[3][:2] + " ".join(L[3][2:].split()[:11])
+            elif how == "latitude-text":
+                L[0] = L[0][:27] + " n/a  " + L[0][33:]
+            elif how == "one-magnitude":
+                L[0] = L[0][:48] + "5.0    " + L[0][55:]
+            elif how == "zero-moment":
+                L[4] = L[4][:49] + "  0.000" + L[4][56:]
+            elif how == "time-second-65":
+                L[0] = L[0][:22] + "65.4" + L[0][26:]
+            else:
+                L[0] = L[0][:22] + "60.5" + L[0][26:]
+            recs = [dict(r) for r in recs]
+            recs[j] = dict(recs[j], text=L)
+            text = "\n".join("\n".join(r["text"]) for r in recs) + "\n"
+            path = os.path.join(d, f"m{k}.ndk")
+            with open(path, "w", newline="") as f:
+                f.write(text)
+            try:
+                c = csep.load_catalog(path, type="ndk")
+                got = "n=%d" % c.event_count
+            except Exception as e:
+                got = "raised"
+            os.unlink(path)
+            todo.append((how, got, len(recs), drv.ask("c19_text ndk " + text.encode("latin-1").hex())))
+        out = drv.run()
+        diff = []
+        for how, got, nrec, i in todo:
+            m = out[i]
+            model = "raised" if m.startswith("err:") else ("n=%d" % (0 if m == "ok:" else m.count(";") + 1) if m.startswith("ok:") else m)
+            run.count("ndk-malformed(informational):" + how + ":" + ("agree" if model == got else "DIFFER"))
+            if model != got:
+                diff.append(dict(how=how, records=nrec, implementation=got, model=model))
+        run.extra["ndk_malformed_informational"] = dict(files=len(todo), disagreements=diff[:10])
+    finally:
+        shutil.rmtree(d, ignore_errors=True)
+
+
 def run(run, rng, tier):
     ctx = Ctx(run)
     try:
@@ -640,6 +821,8 @@ def run(run, rng, tier):
         d.ask("c19_tables")
         check_tables(run, d.run()[0])
         check_calendar(run, rng, 3000 if tier == "quick" else 110000)
+        check_float_text(run, rng, 4000 if tier == "quick" else 60000)
+        check_ndk_malformed(run, rng, 60 if tier == "quick" else 600)
         cdir = os.path.join(os.path.dirname(os.path.dirname(os.path.abspath(__file__))), "corpus", "C19")
         if os.path.isdir(cdir):
             for fn in sorted(os.listdir(cdir)):
@@ -651,7 +834,7 @@ def run(run, rng, tier):
                 check_case(ctx, GEN[fmt](rng, n), "small")
             for k in range(per):
                 n = rng.choice([1, 2, 3, 5, 10, 20, 60, rng.randint(1, 60)])
-                check_case(ctx, dict(GEN[fmt](rng, n), tz=ZONES[k % len(ZONES)]), "random")
+                check_case(ctx, dict(GEN[fmt](rng, n), tz=ZONES[k % len(ZONES)], eol="crlf" if k % 7 == 3 else "lf"), "random")
             flush(ctx)
         run.extra["local_zones_effective"] = sorted(z for z, ok in _ZONE_OK.items() if ok)
         dead = sorted(z for z, ok in _ZONE_OK.items() if not ok)
